@@ -1,6 +1,7 @@
 """Property -> units / harnesses / stated assumptions.  Units are /verif/units/<name>.vrs."""
 
 UNIT_NOTES = {
+    "payload": "C15/C09/C05 api/types.rs: decode_bytes_from_inscription_data, decode_zstd_into_bytes, Base64Bytes::value, RawBytes::value, select_bytes + encoding-independence lemma",
     "configdb": "C20 global/database.rs: ConfigDatabase::{get,set,flush,validate} over the DB shim and validate_config_database with the file system as uninterpreted predicates",
     "auth": "C12 server/auth.rs: validate_call / validate_notification / HttpNonBlockingAuth::{allow,new,validate} + per-method obligations generated from api.rs on every run",
     "dbfacade": "L4 Brc20ProgDatabase against the L3 CONTRACT FILES (tables opaque): heights, stamped setters, require_block_does_not_exist, set_block_hash, commit_changes, clear_caches, reorg",
@@ -76,13 +77,24 @@ PROPS["C20"] = {
     ],
 }
 
+PROPS["C15"] = {
+    "units": ["payload"],
+    "kani": [],
+    "level_text": "Proof on the real decoder, for every input string: no panic (no precondition on the request-controlled argument), the result never exceeds CALLDATA_LIMIT, and it is exactly the payload the published format describes (strip from the first '=', base64 no-pad, first byte selects raw/nada/zstd); select_bytes accepts exactly one of the two fields and feeds the decoded bytes on; lemma: the base64 field carrying the published encoding of the bytes of the hex field yields the same bytes.",
+    "level_note": "Assumed dependency contracts (external crates): base64 decode/encode inverse and '='-free alphabet, nada decode_with_limit bounded and inverse of encode, zstd decompress bounded by the buffer and inverse of compress, frame header consistent with content, alloy Bytes::from_hex a function of the text. Not covered: the encoder Base64Bytes::from_bytes body (chooses the shortest of three encodings through the same crates), handlers passing the bytes on unchanged.",
+    "assumptions": [
+        "base64 / nada / zstd-safe / hex crates behave as inverse pairs with the stated bounds (assumed, listed in the unit)",
+        "Base64Bytes::from_bytes (encoder) body not under contract; the round trip is proved for the published format it emits",
+    ],
+}
+
 NOT_APPLICABLE = {
     "C07": "conservation is a property of Solidity/EVM bytecode executed by revm; neither Verus nor Kani has a semantics for it, no contract within reach can state it",
     "C10": "non-mutation is the frame condition of revm's replay/transact_one inside async fns; it could only be assumed, not proved, on code within reach",
     "C11": "quantifies over thread schedules; Kani has no threads, Verus would need permission types threaded through the code (different code)",
     "C17": "relational equivalence of two entry points of an external interpreter over arbitrary bytecode; no contract on code within reach expresses it",
 }
-PENDING = ["C02", "C04", "C05", "C06", "C08", "C09", "C14", "C15", "C18", "C19"]
+PENDING = ["C02", "C04", "C05", "C06", "C08", "C09", "C14", "C18", "C19"]
 for _p in PENDING:
     if _p not in PROPS:
         NOT_APPLICABLE[_p] = "check under construction in this commit (DESIGN.md 0); claimed once its units discharge"
